@@ -1,4 +1,5 @@
 import Thanos.Model.Iter
+import Thanos.Lemmas.IterBasic
 /-
   C02 helper lemmas: the value invariant of counter deduplication.
 
@@ -186,14 +187,6 @@ theorem nodeStep_W (ha : Mono oa Ia) (hb : Mono ob Ib) (s : Node α β) (hW : no
   refine ⟨h5, ?_, ?_⟩
   · intro hv; rw [h3] at hv; rw [h1]; exact (stepA_mono ha s hW hv).1
   · intro hv; rw [h4] at hv; rw [h2]; exact (stepB_mono hb s hW hv).1
-
-theorem nodeAdjust_proj (v : Int) (s : Node α β) :
-    (nodeAdjust oa ob v s).aval = s.aval ∧ (nodeAdjust oa ob v s).bval = s.bval ∧
-    (nodeAdjust oa ob v s).useA = s.useA ∧ (nodeAdjust oa ob v s).lastIsA = s.lastIsA ∧
-    (nodeAdjust oa ob v s).a = (if s.aval then oa.adjust v s.a else s.a) ∧
-    (nodeAdjust oa ob v s).b = (if s.bval then ob.adjust v s.b else s.b) := by
-  unfold nodeAdjust
-  cases hav : s.aval <;> cases hbv : s.bval <;> simp [hav, hbv]
 
 theorem nodeAdjust_W (ha : Mono oa Ia) (hb : Mono ob Ib) (v : Int) (s : Node α β) (hW : nodeW Ia Ib s) :
     nodeW Ia Ib (nodeAdjust oa ob v s) := by
